@@ -53,8 +53,9 @@ ASSUMPTIONS = [
     "metadata 'no-write' and the pre-1.4 'ctime' fallback are not exercised",
 ]
 
-NFC_E = "é"
-NFD_E = "é"
+NFC_E = "\u00e9"          # composed
+NFD_E = "e\u0301"         # decomposed: a different string, the same name after NFC
+assert NFC_E != NFD_E and __import__("unicodedata").normalize("NFC", NFD_E) == NFC_E
 MD = [None, {}, {"k": 1}, {"tahoe": {"x": 1}, "j": 2}]
 OW = {"T": True, "F": False, "OF": ONLY_FILES}
 T0 = 1000000000.0
